@@ -318,7 +318,9 @@ func mfRenderDesc(c mfCase) (name, text string, files map[string]string) {
 	case cls == "xpath_invalid":
 		xpath("//a[")
 	default:
-		machinery("no renderer for description class %q", cls)
+		if !mfRenderDescSyntax(d, c.Format, cls, files) {
+			machinery("no renderer for description class %q", cls)
+		}
 	}
 	return "/scn/payload." + syn, d.text, files
 }
